@@ -138,12 +138,27 @@ func ReadUint32(rd io.Reader) (uint32, error) {
 
 // ReadNBytes reads n bytes from the reader
 func ReadNBytes(n int, rd io.Reader) ([]byte, error) {
-	var b []byte = make([]byte, n)
+	// n often comes from a length field of the input: the buffer grows with the data that
+	// actually arrives instead of being allocated in the announced size up front
+	size := n
+	if size > 4096 {
+		size = 4096
+	}
+	var b []byte = make([]byte, size)
 	var num int
 	var err error
 
 	// a single Read may return fewer bytes than requested without being at the end
 	for num < n && err == nil {
+		if num == len(b) {
+			size = 2 * len(b)
+			if size > n {
+				size = n
+			}
+			bb := make([]byte, size)
+			copy(bb, b)
+			b = bb
+		}
 		var nn int
 		nn, err = rd.Read(b[num:])
 		num += nn
